@@ -57,6 +57,33 @@ theorem item_cam (fmt : Nat) (c : Cam) (h : c.valid fmt = true) : c.enc.length =
 theorem item_optchan (c : OptChan) (h : c.valid = true) : c.enc.length = OptChan.nBytes := OptChan.enc_length c h
 theorem item_event (e : Event) (h : e.valid = true) : e.enc.length = e.size := Event.enc_length e h
 
+/-- ANY float content: for a raw track (rows of k components holding arbitrary bit patterns — NaN, ±inf,
+    denormals anywhere) the bytes written for the rows the library regards as present have exactly the
+    declared size. No validity assumption on the samples. -/
+theorem item_raw_track (k : Nat) (raw : List Frame) (hk : ∀ r ∈ raw, r.length = k) :
+    (encRuns (see raw)).length = sizeRuns k (see raw) := by
+  apply encRuns_length
+  intro fr hfr
+  simp only [see, List.mem_map] at hfr
+  obtain ⟨r, hr, he⟩ := hfr
+  split at he
+  · injection he with he; subst he; exact hk r hr
+  · cases he
+
+/-- … and decoding consumes exactly those bytes and returns the library's view of the raw track -/
+theorem consumed_raw_track (k : Nat) (raw : List Frame) (rest : Bytes) (hk : ∀ r ∈ raw, r.length = k)
+    (hn : raw.length < 2147483648) :
+    (decRuns k raw.length).run (encRuns (see raw) ++ rest) = some (see raw, rest) := by
+  have hlen : (see raw).length = raw.length := by simp [see]
+  have := decRuns_run k (see raw) rest (by
+    intro fr hfr
+    simp only [see, List.mem_map] at hfr
+    obtain ⟨r, hr, he⟩ := hfr
+    split at he
+    · injection he with he; subst he; exact hk r hr
+    · cases he) (by omega)
+  rwa [hlen] at this
+
 /-- the size of a track is the fixed part plus 8 + 4k·len per run — "every number and length of segments" -/
 theorem runs_size_formula (k : Nat) (fs : List (Option Frame)) :
     sizeRuns k fs = 8 + ((runs fs).map (fun r => 8 + r.2.length * (4 * k))).sum := by
